@@ -11,7 +11,7 @@
 N=${1:-60}; shift
 cd /verif
 export GOFLAGS=-mod=mod GOPROXY=off GOSUMDB=off GOTOOLCHAIN=local
-checks=${@:-$(python3 -c "import json; print(' '.join(sorted(json.load(open('checks.json')))))")}
+checks=${@:-$(python3 -c "import json; c=json.load(open('checks.json')); print(' '.join(sorted(k for k in c if 'reports_as' not in c[k])))")}
 bin/setup >/dev/null || exit 2
 D=$(mktemp -d /tmp/verif-det-XXXXXX); trap 'rm -rf "$D"' EXIT
 bad=0
